@@ -3,13 +3,13 @@ import copy
 
 from hypothesis import strategies as st
 
-from .. import events as EV, kmodel, scenario as SC, strategies as S
+from .. import cli as CLI, events as EV, kmodel, scenario as SC, strategies as S
 from ..core import Violation, guard
 from ..io_util import BudgetReader
 
 ID = 'C13'
 RULE = ('histories on ONE PyKdebugParser object: 2..8 steps, each = (filter settings: tid, process, class list, '
-        'BSD-subclass list, as list or tuple) + a request (traces, formatted_traces, callstacks, kevents) on one of 2 '
+        'BSD-subclass list, as list or tuple, assigned or edited in place) + a request (traces, formatted_traces, callstacks, kevents) on one of 2 '
         'generated version-2 dumps (scenario programs of 2..3 threads with a thread map; "static" dumps carry no '
         'map-updating records and are used with every filter, "dynamic" dumps carry new-thread/exec/terminate/sampler '
         'records and are used with the process filter alone). Oracle per request: traces == [t for t in unfiltered run '
@@ -19,7 +19,8 @@ RULE = ('histories on ONE PyKdebugParser object: 2..8 steps, each = (filter sett
         'four filter attributes still hold what the history last set; after the history an unfiltered request on every dump '
         'equals the baseline, and a canonical dump decoded at process start reads the same from a fresh parser before and '
         'after every history (state kept outside the objects); callstack_history: 2..4 callstack requests over one or two '
-        'dumps on one object == fresh parser each time. Non-trivial: a class or subclass filter is active '
+        'dumps on one object == fresh parser each time; cli: `traces --tid --process -cf -sf` prints the lines of the unfiltered '
+        'command at the positions the predicate selects, `callstacks --tid --process` == the library listing with those filters. Non-trivial: a class or subclass filter is active '
         'and the same request occurs at least twice in the history; distinct by history digest.')
 ASSUMPTIONS = ['subclass filters are BSD subclasses only (statement); callstack requests are compared for repeatability, '
                'not against the unfiltered run (dropping image announcements legitimately changes attribution)',
@@ -80,6 +81,12 @@ def baseline(blob):
 def apply_cfg(p, cfg):
     p.filter_tid = cfg['tid']
     p.filter_process = cfg['process']
+    if cfg.get('in_place') and isinstance(p.filter_class, list) and isinstance(p.filter_subclass, list):
+        # the caller edits the lists the object already holds instead of assigning new ones
+        p.filter_class[:] = cfg['classes']
+        del p.filter_subclass[:]
+        p.filter_subclass.extend(cfg['subclasses'])
+        return
     p.filter_class = tuple(cfg['classes']) if cfg['as_tuple'] else list(cfg['classes'])
     p.filter_subclass = tuple(cfg['subclasses']) if cfg['as_tuple'] else list(cfg['subclasses'])
 
@@ -250,7 +257,25 @@ def prop_callstack_history(ctx, case):
     ctx.note(None, nontrivial=polluted and len(case['requests']) >= 2, classes=['callstack-history', f'dumps:{len(blobs)}'])
 
 
-PROPS = {'history': prop_history, 'callstack_history': prop_callstack_history}
+def prop_cli(ctx, case):
+    """the trace filters as the command line offers them"""
+    blob, evs, tm = build_file(case['file'])
+    base = guard(baseline, blob)
+    cfg = resolve_cfg({'cfg': case['cfg']}, tm, case['file']['dynamic'])
+    o = {'tid': cfg['tid'], 'process': cfg['process'], 'cf': cfg['classes'], 'sf': cfg['subclasses'], 'show_tid': case['show_tid'],
+         'color': case['color'], 'radix': case['radix']}
+    lines = guard(CLI.reference_items, 'traces', o, blob)
+    if len(lines) != len(base):
+        raise Violation('cli:traces:lines', f'{len(lines)} formatted lines for {len(base)} traces')
+    keep = [ln for ln, b in zip(lines, base) if pred(b, cfg)]
+    CLI.expect('traces', o, blob, keep, 'the options select exactly the matching traces')
+    cs = guard(CLI.reference_items, 'callstacks', o, blob, True)
+    CLI.expect('callstacks', o, blob, cs, 'same as the library listing with these filters')
+    active = cfg['tid'] is not None or cfg['process'] is not None or bool(cfg['classes'] or cfg['subclasses'])
+    ctx.note([blob, o], nontrivial=active and 0 < len(keep) < len(base), classes=['cli', *(['cli-callstacks'] if cs else [])])
+
+
+PROPS = {'history': prop_history, 'callstack_history': prop_callstack_history, 'cli': prop_cli}
 
 
 def strategy():
@@ -260,8 +285,8 @@ def strategy():
         st.tuples(st.just('globalstring'), st.just(''), S.u64, st.integers(0, 3), st.integers(0, 15)),
         # operations whose decoding needs a helper class: path-taking syscalls with lookups, dyld ops with announced strings
         st.tuples(st.just('call'), st.sampled_from(['BSC_open', 'BSC_rename', 'BSC_stat64', 'BSC_openat', 'BSC_linkat', 'BSC_access', 'BSC_unlink']),
-                  S.u64, st.integers(1, 2), st.integers(0, 7)),
-        st.tuples(st.just('call'), st.sampled_from(['BSC_open', 'BSC_rename', 'BSC_mkdir']), S.u64, st.integers(1, 2), st.integers(0, 7)),
+                  S.u64, st.integers(1, 2), st.integers(0, 15)),
+        st.tuples(st.just('call'), st.sampled_from(['BSC_open', 'BSC_rename', 'BSC_mkdir']), S.u64, st.integers(1, 2), st.sampled_from([0, 1, 2, 4, 8, 8, 9, 10, 12, 15])),
         st.tuples(st.just('dyld'), st.sampled_from(sorted(SC.DYLD_STRING_OPS)), st.integers(5000, 2 ** 40), st.integers(0, 3), st.sampled_from([0, 2, 4]))).map(list)
     op = st.one_of(SC.op_strategy(), SC.op_strategy(), special)
     programs = st.lists(st.lists(op, min_size=1, max_size=5), min_size=2, max_size=3)
@@ -272,7 +297,7 @@ def strategy():
         'tid_i': st.sampled_from([0, 0, 1, 2, 3, 4]), 'process_i': st.sampled_from([0, 0, 0, 1, 2, 3, 4, 5]),
         'classes': st.one_of(st.just([]), st.lists(st.sampled_from(CLASSES), min_size=1, max_size=3)),
         'subclasses': st.one_of(st.just([]), st.just([]), st.lists(st.sampled_from(BSD_SUBCLASSES), min_size=1, max_size=2)),
-        'as_tuple': st.sampled_from([False, False, True])})
+        'as_tuple': st.sampled_from([False, False, True]), 'in_place': st.sampled_from([False, False, True])})
     step = st.fixed_dictionaries({'file': st.integers(0, 1), 'kind': st.sampled_from(['traces', 'formatted_traces', 'traces', 'callstacks', 'kevents']),
                                   'cfg': cfg})
 
@@ -283,7 +308,9 @@ def strategy():
             out.append(copy.deepcopy(out[d % len(out)]))
         return out
     steps = st.tuples(st.lists(step, min_size=1, max_size=5), st.lists(st.integers(0, 9), min_size=1, max_size=3)).map(with_repeats)
-    return st.fixed_dictionaries({'files': st.lists(fspec, min_size=1, max_size=2), 'steps': steps})
+    return st.fixed_dictionaries({'files': st.lists(fspec, min_size=1, max_size=2), 'steps': steps,
+                                  'cli': st.fixed_dictionaries({'file': fspec, 'cfg': cfg, 'show_tid': st.sampled_from([None, True, False]),
+                                                                'color': st.sampled_from([None, False, False, True]), 'radix': st.integers(0, 2)})})
 
 
 def callstack_strategy():
@@ -296,3 +323,6 @@ def callstack_strategy():
 def run(ctx):
     ctx.run_given('callstack_history', callstack_strategy(), prop_callstack_history, ctx.n(300, 1500))
     ctx.run_given('history', strategy(), prop_history, ctx.n(500, 1800))
+    if ctx.failures:
+        return          # the command line reads real files without a read budget: not on a tree that already fails
+    ctx.run_given('cli', strategy().map(lambda c: c['cli']), prop_cli, ctx.n(80, 400))
